@@ -265,6 +265,7 @@ def strings(body):
     return res
 
 def lean_bool(b): return "true" if b else "false"
+def keylist0(ks): return "[" + ", ".join('"%s"' % k for k in ks) + "]"
 
 # error variants the outer layer of process_message can return or record, in the order of Model.Wrap.ErrKind
 WRAP_ERRS = ["UnexpectedEvent", "InvalidTimestamp", "MissingGroupIdTag", "MultipleGroupIdTags", "InvalidGroupIdFormat",
@@ -643,6 +644,34 @@ def main():
     if "groups" not in tables or "messages" not in tables:
         raise Missing("schema:tables")
     facts["sqlCascadeChildrenOfGroups"] = ("List String", "[" + ", ".join('"%s"' % c for c, p in sorted(cascade) if p == "groups") + "]", "migrations/*.sql FOREIGN KEY … ON DELETE CASCADE")
+
+    # ---- C16 / C08: the uniqueness rule of save_group (the nostr group id is the routing key of kind-445 events) ----
+    # SQLite: the upsert must name its conflict target (a bare `ON CONFLICT DO UPDATE` fires on the UNIQUE index of
+    # nostr_group_id too and then rewrites the row of the OTHER group), and the UNIQUE index must exist.
+    sg_sql = re.sub(r"\s+", " ", " ".join(strings(fn_body(sql_groups, "save_group", "fn:save_group(sqlite)")))).upper()
+    if "INTO GROUPS" not in sg_sql:
+        raise Missing("sql:save_group:insert")
+    cm = re.search(r"ON CONFLICT\s*(?:\(([^)]*)\))?\s*DO (UPDATE|NOTHING)", sg_sql)
+    if re.search(r"INSERT OR (REPLACE|IGNORE)", sg_sql) or not cm:
+        target = ["<no upsert clause>"]
+    else:
+        target = [c.strip().lower() for c in (cm.group(1) or "").split(",") if c.strip()] + ([] if cm.group(2) == "UPDATE" else ["<do nothing>"])
+    facts["sqlSaveGroupConflictTarget"] = ("List String", keylist0(target), "mdk-sqlite-storage groups.rs save_group: the conflict target named by the upsert ([] = none named: any uniqueness conflict becomes an UPDATE of the conflicting row)")
+    uniq_cols = set()
+    for m in re.finditer(r"CREATE UNIQUE INDEX(?: IF NOT EXISTS)?\s+(\w+)\s+ON\s+groups\s*\(\s*(\w+)\s*\)", schema, re.I):
+        if not re.search(r"DROP INDEX(?: IF EXISTS)?\s+" + m.group(1) + r"\b", schema[m.end():], re.I):
+            uniq_cols.add(m.group(2).lower())
+    if re.search(r"\bnostr_group_id\b[^,]*\bUNIQUE\b", tables["groups"], re.I):
+        uniq_cols.add("nostr_group_id")
+    boolean("sqlNostrGroupIdUnique", "nostr_group_id" in uniq_cols, "migrations/*.sql: UNIQUE index (or column constraint) on groups(nostr_group_id), not dropped later")
+    mem_sg = fn_body(strip_comments(non_test(read("crates/mdk-memory-storage/src/groups.rs"))), "save_group", "fn:save_group(memory)")
+    msg1 = re.sub(r"\s+", "", mem_sg)
+    pk = re.search(r"\.(?:peek|get)\(&group\.nostr_group_id\)", msg1)
+    ne = re.search(r"mls_group_id!=group\.mls_group_id|group\.mls_group_id!=\w+\.mls_group_id", msg1)
+    put = msg1.find(".put(")
+    ret = msg1.find("returnErr(", pk.end()) if pk else -1
+    boolean("memSaveGroupRefusesForeignNostrId", bool(pk and ne) and pk.end() <= ne.start() < ret < put,
+            "mdk-memory-storage groups.rs save_group: looks the new nostr_group_id up in its by-id index and returns Err when it belongs to a different mls_group_id, before either cache is written")
 
     restore = fn_body(sql_lib, "restore_group_from_snapshot", "fn:restore_group_from_snapshot")
     rs = [s.upper() for s in strings(restore)]
